@@ -34,6 +34,11 @@ type scase struct {
 	// Steps, when present, is an explicit schedule (derived from a TLC behaviour of DownstreamImpl):
 	// hold:<point>[#n] | arrive:<point> | release:<point> | await:<event name> | do:<gtimer|ptimer|upresp|upclose|clientreset>
 	Steps []string `json:"steps"`
+	// Shape of the request (spec/lifecycle/RequestShape.tla); empty Wire = the plain form chosen by Body.
+	Wire     string `json:"wire"`     // how the client puts the body on the wire (per protocol, see shapes.go)
+	Fop      string `json:"fop"`      // what the scripted body filter does before routing: keep | strip | fill | trail
+	Data     string `json:"data"`     // what the forwarding phases see (derived by the spec): absent | empty | bytes
+	Trailers string `json:"trailers"` // absent | present
 }
 
 const (
@@ -107,6 +112,7 @@ func main() {
 	shards := flag.Int("shards", 1, "number of shards")
 	proto := flag.String("proto", "http1", "http1 | http2 | bolt | boltoneway (downstream and upstream protocol of the listener under test)")
 	books := flag.Bool("books", false, "give every cluster (high) circuit-breaker thresholds so that its resources count (C10 guided part)")
+	shapes := flag.Bool("shapes", false, "install the scripted body filter (request-shape cases: wire form x filter operation)")
 	flag.Parse()
 	isBolt := *proto == "bolt" || *proto == "boltoneway"
 	isH2 := *proto == "http2"
@@ -167,6 +173,9 @@ func main() {
 	if isH2 {
 		ls.Downstream, ls.Upstream = "Http2", "Http2"
 	}
+	if *shapes {
+		ls.StreamFilters = []v2.Filter{{Type: "c03body", Config: map[string]interface{}{}}}
+	}
 	lst := e2e.BuildListener(ls)
 	m := e2e.StartMosn(e2e.BuildConfig([]v2.Listener{lst}, clusters, e2e.ScratchLog(tmp)))
 	defer m.Close()
@@ -179,6 +188,7 @@ func main() {
 
 	var minRid uint64 // events of streams older than the current run are recorded as notes
 	var firstRid uint64
+	var sentAttempts int64 // attempts of the current run for which the pool handed out an upstream stream
 	sched := gate.Install(func(e gate.Event) {
 		var rid uint64
 		if len(e.KV) > 0 {
@@ -196,6 +206,9 @@ func main() {
 			atomic.CompareAndSwapUint64(&firstRid, 0, rid)
 			tr.Emit(vh.Ev{"ev": "new", "rid": rid, "oneway": e.KV[1]})
 		case "us.attempt":
+			if e.KV[2] == "sent" {
+				atomic.AddInt64(&sentAttempts, 1)
+			}
 			tr.Emit(vh.Ev{"ev": "attempt", "rid": rid, "host": e.KV[1], "res": e.KV[2]})
 		case "ds.reply":
 			tr.Emit(vh.Ev{"ev": "reply", "rid": rid, "code": e.KV[1], "end": e.KV[2]})
@@ -233,6 +246,7 @@ func main() {
 		}
 		sched.Reset()
 		atomic.StoreUint64(&firstRid, 0)
+		atomic.StoreInt64(&sentAttempts, 0)
 		rq0, pd0, rt0 := readBooks()
 		if c.Steps == nil {
 			c.Steps = []string{} // JSON null is not a TLA+ value
@@ -276,6 +290,13 @@ func main() {
 				sched.HoldNth(pt, nth)
 			}
 		}
+		if c.Fop != "" && c.Fop != "keep" {
+			if !*shapes {
+				vh.Must(fmt.Errorf("case with a filter operation, driver started without -shapes"), "cases")
+			}
+			hdr[bodyOpHeader] = c.Fop
+		}
+		wireLen := len(reqBody(c, tok))
 		var cl dsClient
 		if isBolt {
 			bc, err := e2e.DialBolt(laddr)
@@ -284,17 +305,36 @@ func main() {
 			if c.Try {
 				bh["x-mosn-try-timeout"] = fmt.Sprint(tryMs)
 			}
-			vh.Must(bc.Send(oneway, globalMs, bh, tok), "send")
+			content := tok
+			if c.Wire != "" {
+				content, err = boltBody(c, tok)
+				vh.Must(err, "wire form")
+				if c.Fop != "" && c.Fop != "keep" {
+					bh[bodyOpHeader] = c.Fop
+				}
+			}
+			wireLen = len(content)
+			vh.Must(bc.Send(oneway, globalMs, bh, content), "send")
 			cl = bc
 		} else if isH2 {
 			hc, err := e2e.DialH2(laddr)
 			vh.Must(err, "dial proxy")
-			vh.Must(hc.Send(method(c), "/"+c.Cluster+"/x?tok="+tok, hdr, reqBody(c, tok)), "send")
+			if c.Wire != "" {
+				wireLen, err = sendHTTP2(hc, c, "/"+c.Cluster+"/x?tok="+tok, hdr)
+				vh.Must(err, "send")
+			} else {
+				vh.Must(hc.Send(method(c), "/"+c.Cluster+"/x?tok="+tok, hdr, reqBody(c, tok)), "send")
+			}
 			cl = hc
 		} else {
 			hc, err := e2e.DialHTTP(laddr)
 			vh.Must(err, "dial proxy")
-			vh.Must(hc.Send(method(c), "/"+c.Cluster+"/x?tok="+tok, hdr, reqBody(c, tok)), "send")
+			if c.Wire != "" {
+				wireLen, err = sendHTTP1(hc, c, "/"+c.Cluster+"/x?tok="+tok, hdr)
+				vh.Must(err, "send")
+			} else {
+				vh.Must(hc.Send(method(c), "/"+c.Cluster+"/x?tok="+tok, hdr, reqBody(c, tok)), "send")
+			}
 			cl = hc
 		}
 		reached, happened := false, false
@@ -449,6 +489,21 @@ func main() {
 		foreign := o.Kind == "response" && o.Header.Get("X-Upstream") == "" && strings.Contains(o.Body, tok)
 		tr.Emit(vh.Ev{"ev": "cdone", "rid": rid, "kind": o.Kind, "status": o.Status, "extra": o.Extra,
 			"elapsed": o.ElapsedMs, "bound": globalMs + 700, "foreign": foreign})
+		if c.Wire != "" && c.Hold == "none" && len(c.Steps) == 0 && !clientClosed {
+			// nothing was held and the client stayed: every attempt for which the pool handed out a stream must have
+			// reached the scripted upstream as one complete request, with the body the request shape says
+			arr := reg.Arrivals(tok)
+			blen, same := -1, true
+			for i, a := range arr {
+				if i == 0 {
+					blen = len(a.Body)
+				} else if len(a.Body) != blen {
+					same = false
+				}
+			}
+			tr.Emit(vh.Ev{"ev": "upseen", "rid": rid, "data": c.Data, "trailers": c.Trailers, "sent": atomic.LoadInt64(&sentAttempts),
+				"arrivals": len(arr), "blen": blen, "same": same, "want": forwardedLen(c, wireLen, isBolt)})
+		}
 		if hostsDown {
 			setHealth(c.Cluster, true)
 		}
